@@ -1,6 +1,7 @@
 package main
 
 import (
+	"fmt"
 	"sync/atomic"
 
 	"cvssmc/internal/dump"
@@ -10,6 +11,7 @@ import (
 	"cvssmc/internal/oracle"
 	"cvssmc/internal/spec"
 
+	v3metric "github.com/goark/go-cvss/v3/metric"
 	"github.com/goark/go-cvss/v3/report"
 	"golang.org/x/text/language"
 )
@@ -113,6 +115,49 @@ func enumV3BaseSuffixes(r *ev.Run, P props) {
 	})
 	r.Add("evaluations", n)
 	r.Add("distinct_nontrivial", n)
+}
+
+// xVersusOmitted: "in v3 writing X explicitly is indistinguishable from omitting the metric", one
+// metric at a time: for every base vector, both versions, five contexts of other optional metrics
+// (none; MS:U; MS:C; all others defined; all others defined with the scope modified the other
+// way) and every temporal/environmental metric m, the vector without m and the vector with m:X
+// are decoded and every observable compared (round 4, C09-A-r4: a weight lookup that asks "was
+// MPR written" instead of "is MPR defined", visible only for S:C with MS:U and PR above None).
+func xVersusOmitted(r *ev.Run) {
+	bases := allTok(3, 0)
+	full := v3EnvSuffixes()[14]
+	contexts := []map[string]string{{}, {"MS": "U"}, {"MS": "C"},
+		merge(full, map[string]string{"E": "F", "RL": "W", "RC": "R"}),
+		merge(full, map[string]string{"MS": "U", "MPR": "L", "E": "U"})}
+	opt := append(append([]spec.Metric{}, spec.At(3, 1)...), spec.At(3, 2)...)
+	var n int64
+	safeParallel(r, len(bases), func(i int) {
+		var ln int64
+		for _, verLabel := range spec.V3Versions {
+			for _, ctx := range contexts {
+				for _, m := range opt {
+					tok := merge(bases[i], ctx)
+					delete(tok, m.Name)
+					without := canonicalWritten(3, 2, verLabel, tok)
+					tok[m.Name] = m.NDCode()
+					with1 := canonicalWritten(3, 2, verLabel, tok)
+					a, e1, _ := lib.DecodeNew(3, 2, without)
+					b, e2, _ := lib.DecodeNew(3, 2, with1)
+					ln += 2
+					if e1 != nil || e2 != nil || a == nil || b == nil {
+						r.Violate(ev.Violation{Kind: "valid-vector-not-decoded", Case: map[string]any{"cvss": 3, "vector": without, "twin": with1}, Observed: fmt.Sprint(e1, e2), Expected: "both accepted"})
+						continue
+					}
+					if x, y := observables(a), observables(b); x != y {
+						r.Violate(ev.Violation{Kind: "explicit-X-differs-from-omitted", Case: map[string]any{"cvss": 3, "decoder": "environmental", "vector": without, "twin": with1, "metric": m.Name}, Observed: x, Expected: y + "  (the same vector with " + m.Name + ":" + m.NDCode() + " written)"})
+					}
+				}
+			}
+		}
+		atomic.AddInt64(&n, ln)
+	})
+	r.Add("evaluations", n)
+	r.Add("explicit_X_versus_omitted_decodes", n)
 }
 
 // topFirstSweep: the lower-level scores asked AFTER every query on the higher-level views — the
@@ -223,6 +268,118 @@ func viewsAfterInstalments(r *ev.Run) {
 	}
 	r.Add("instalment_decodes", n)
 	viewsTakenBeforeDecode(r)
+}
+
+// viewsOfTwin: two objects X and Y decoded from the same vector; X is then used further — every
+// query, a second Decode (an instalment under the other version label, a rejected vector under
+// the other version label, the same vector again), an assignment to one of its base fields, a
+// report — and the views of Y must still equal independent lower-level decodes of the vector:
+// what X's owner does is no business of Y (round 4, C14-A-r4: embedded base objects interned
+// process-wide by their metric values).
+func viewsOfTwin(r *ev.Run) {
+	var n int64
+	for _, ver := range []int{3, 2} {
+		for _, bg := range scoreBackgrounds(ver) {
+			for level := 1; level < 3; level++ {
+				full := lang.Project(ver, level, bg.tok)
+				s := canonicalWritten(ver, level, bg.ver, full)
+				other := "3.0"
+				if bg.ver == "3.0" {
+					other = "3.1"
+				}
+				uses := []struct {
+					name string
+					do   func(x any)
+				}{
+					{"every query on X", func(x any) {
+						for q := level; q >= 0; q-- {
+							lib.Observe(lib.Sub(x, q))
+						}
+					}},
+					{"X.Decode of the same vector again", func(x any) { lib.Decode(x, s) }},
+					{"a base field of X assigned another value", func(x any) {
+						m := spec.At(ver, 0)[3]
+						en := lib.EnumOf(ver, m.Name)
+						cur, _ := lib.Field(x, m.Name)
+						for _, k := range en.Consts {
+							if k != cur {
+								lib.SetField(x, m.Name, k)
+								break
+							}
+						}
+					}},
+					{"the base score of X asked after one of its base fields was set to its unknown value", func(x any) {
+						lib.SetField(x, spec.At(ver, 0)[0].Name, lib.EnumOf(ver, spec.At(ver, 0)[0].Name).Unknown)
+						lib.Observe(lib.Sub(x, 0))
+					}},
+				}
+				if ver == 3 {
+					uses = append(uses,
+						struct {
+							name string
+							do   func(x any)
+						}{"X.Decode(CVSS:" + other + "/AV:N), rejected", func(x any) { lib.Decode(x, "CVSS:"+other+"/AV:N") }},
+						struct {
+							name string
+							do   func(x any)
+						}{"X.Decode(CVSS:" + other + "/E:F/RL:O/RC:C)", func(x any) { lib.Decode(x, "CVSS:"+other+"/E:F/RL:O/RC:C") }},
+						struct {
+							name string
+							do   func(x any)
+						}{"the version label of X assigned " + other, func(x any) {
+							v := int(v3metric.V3_0)
+							if other == "3.1" {
+								v = int(v3metric.V3_1)
+							}
+							lib.SetV3Ver(x, v)
+						}},
+						struct {
+							name string
+							do   func(x any)
+						}{"reports built from X", func(x any) { reportScoreText(x, level); reportScoreText(x, 0) }})
+				}
+				for _, order := range []string{"X decoded first", "Y decoded first"} {
+					for _, u := range uses {
+						var x, y any
+						if order == "X decoded first" {
+							x, _, _ = lib.DecodeNew(ver, level, s)
+							y, _, _ = lib.DecodeNew(ver, level, s)
+						} else {
+							y, _, _ = lib.DecodeNew(ver, level, s)
+							x, _, _ = lib.DecodeNew(ver, level, s)
+						}
+						if x == nil || y == nil {
+							continue
+						}
+						func() {
+							defer func() { recover() }() // what X does to itself is judged elsewhere
+							u.do(x)
+						}()
+						n++
+						// and a third object decoded afterwards
+						z, _, _ := lib.DecodeNew(ver, level, s)
+						for name, o := range map[string]any{"Y": y, "Z (decoded afterwards)": z} {
+							if o == nil {
+								continue
+							}
+							for lv := 0; lv <= level; lv++ {
+								ps := canonicalWritten(ver, lv, bg.ver, lang.Project(ver, lv, full))
+								ind, ierr, _ := lib.DecodeNew(ver, lv, ps)
+								if ierr != nil || ind == nil {
+									continue
+								}
+								if a, b := lib.Observe(lib.Sub(o, lv)), lib.Observe(ind); a != b {
+									r.Violate(ev.Violation{Kind: "view-of-another-object-changed", Case: map[string]any{"cvss": ver, "decoder": spec.LevelNames[level], "vector": s, "history": []string{order + ", both from the same vector", u.name, "views of " + name}, "view": spec.LevelNames[lv]},
+										Observed: a.String(), Expected: b.String() + "  (independent decode of " + ps + ")"})
+								}
+							}
+						}
+					}
+				}
+			}
+		}
+	}
+	r.Add("twin_object_histories", n)
 }
 
 // viewsTakenBeforeDecode: (i) the views are taken from the constructor result, then the owner
@@ -398,6 +555,7 @@ func init() {
 			dpathSliceV2(r, P, nil, func(gi int) bool { return gi%240 == 0 })
 		}
 		r.Phase("views after instalment decoding", func() { viewsAfterInstalments(r) })
+		r.Phase("views of a twin object", func() { viewsOfTwin(r) })
 		r.Set("exhaustive", false)
 		r.Set("complete_subdomains", "v3 base x temporal (518,400) at the temporal decoder and at the environmental decoder x 20 environmental suffixes; v2 base x temporal (73,629) at both decoders x 3 suffixes; thorough adds all 2,211,840 v3 environmental combinations x 3 base+temporal vectors and a quarter of the v2 141M domain")
 		r.Set("rule", "for every vector: the object returned by BaseMetrics()/TemporalMetrics() is pointer-identical on repeated calls and to the embedded field, and its score, severity, validity, encoding, string and complete reflective state equal those of an independent lower-level decode of the projected vector; distinct by token set")
